@@ -11,6 +11,7 @@ Part 1 (record lists):
   `rec <nodeId> <cls> <name|~>`                                  → `ok`   (appends a record)
   `st <inst> <state> <time> <tick> <label> <c><x><f><F> <cmd>`   → `ok`   (appends a state to the last record)
   `runlog`                                                       → items / `err:<kind>` of the loaded records
+  `runlogm`                                                      → the same without the final sort (self-test mutant)
 Part 2 (tracking API):
   `init <enabled> <guard>` `tick <t> <n>` `enable <b>` `addrec <node> <cls> <name|~>`
   `create <node> <env…>` `mark <kind> <tgt…> <env…> <updOk>` `fail <tgt…> <env…>` `cmdst <uod> <inst> <skip> <env…>`
@@ -158,6 +159,10 @@ def step (d : DS) (line : String) : DS × String :=
         ({ d with loaded := d.loaded.dropLast ++ [appendState r st] }, "ok")
     | _, _, _, _, _, _, _ => (d, "bad-op")
   | ["runlog"] => (d, showRunlog d.loaded)
+  | ["runlogm"] =>   -- mutant for the harness self-test: the final sort is missing
+    (d, match collect recordItems (d.loaded.filter (fun r => r.cls != "NullNode")) with
+        | .error e => showErr e
+        | .ok items => if items.isEmpty then "-" else "|".intercalate (items.map showItem))
   | ["init", e, g] =>
     match parseBool e, parseBool g with
     | some e, some g => ({ d with ts := TS.init e g }, "ok")
